@@ -55,13 +55,44 @@ Proof.
   - split; [apply dmg_ext_refl; assumption|]. intros H; discriminate.
 Qed.
 
-Theorem term_resize_preserves app st tm nl nc :
-  ScreenInv app st tm -> ids_unique (r_tree st) -> 0 < nl -> 0 < nc ->
-  r_fault (fst (win_term_resize st tm nl nc)) = false ->
-  ScreenInv app (fst (win_term_resize st tm nl nc)) (snd (win_term_resize st tm nl nc)) /\
-  ids_unique (r_tree (fst (win_term_resize st tm nl nc))).
+(* on_term_resize without the final restore request (C15-d) *)
+Definition win_term_resize0 (st : root) (tm : term) (nl nc : Z) : root * term :=
+  if (t_lines tm =? nl) && (t_cols tm =? nc) then (st, tm) else
+  let tm1 := term_resize tm nl nc in
+  let rs := root_selfrect st in
+  let oldl := lines rs in
+  let oldc := cols rs in
+  let st1 := win_resize st (t_id (r_tree st)) nl nc in
+  let st2 := if nl >? oldl then win_expose st1 (t_id (r_tree st)) (Some (mkRect oldl 0 (nl - oldl) nc)) else st1 in
+  let st3 := if nc >? oldc then win_expose st2 (t_id (r_tree st)) (Some (mkRect 0 oldc oldl (nc - oldc))) else st2 in
+  (st3, tm1).
+
+Lemma win_term_resize_eq st tm nl nc :
+  win_term_resize st tm nl nc =
+  (if (t_lines tm =? nl) && (t_cols tm =? nc) then fst (win_term_resize0 st tm nl nc)
+   else request_restore (fst (win_term_resize0 st tm nl nc)),
+   snd (win_term_resize0 st tm nl nc)).
 Proof.
-  intros SI Hu Hnl Hnc Hf. unfold ids_unique in *. unfold win_term_resize in *.
+  unfold win_term_resize, win_term_resize0.
+  destruct ((t_lines tm =? nl) && (t_cols tm =? nc)); reflexivity.
+Qed.
+
+Lemma si_request_restore app st tm : ScreenInv app st tm -> ScreenInv app (request_restore st) tm.
+Proof.
+  intros [H1 H2 H3 H4 H5 [H6 H7]].
+  constructor; try assumption.
+  split; cbn; intros H.
+  - split; [apply (H6 H)|reflexivity].
+  - reflexivity.
+Qed.
+
+Lemma term_resize0_preserves app st tm nl nc :
+  ScreenInv app st tm -> ids_unique (r_tree st) -> 0 < nl -> 0 < nc ->
+  r_fault (fst (win_term_resize0 st tm nl nc)) = false ->
+  ScreenInv app (fst (win_term_resize0 st tm nl nc)) (snd (win_term_resize0 st tm nl nc)) /\
+  ids_unique (r_tree (fst (win_term_resize0 st tm nl nc))).
+Proof.
+  intros SI Hu Hnl Hnc Hf. unfold ids_unique in *. unfold win_term_resize0 in *.
   destruct ((t_lines tm =? nl) && (t_cols tm =? nc)) eqn:Esame.
   { cbn [fst snd] in *. split; assumption. }
   cbv zeta in *. cbn [fst snd] in *.
@@ -127,6 +158,22 @@ Qed.
 
 (* ------------------------------------------------------------------------------------ *)
 (* the history capstone, with OTermResize                                                *)
+
+
+Theorem term_resize_preserves app st tm nl nc :
+  ScreenInv app st tm -> ids_unique (r_tree st) -> 0 < nl -> 0 < nc ->
+  r_fault (fst (win_term_resize st tm nl nc)) = false ->
+  ScreenInv app (fst (win_term_resize st tm nl nc)) (snd (win_term_resize st tm nl nc)) /\
+  ids_unique (r_tree (fst (win_term_resize st tm nl nc))).
+Proof.
+  intros SI Hu Hnl Hnc Hf. rewrite win_term_resize_eq in *. cbn [fst snd] in *.
+  assert (Hf0 : r_fault (fst (win_term_resize0 st tm nl nc)) = false).
+  { destruct ((t_lines tm =? nl) && (t_cols tm =? nc)); exact Hf. }
+  destruct (term_resize0_preserves app st tm nl nc SI Hu Hnl Hnc Hf0) as [H1 H2].
+  destruct ((t_lines tm =? nl) && (t_cols tm =? nc)).
+  - split; assumption.
+  - split; [apply si_request_restore; exact H1|exact H2].
+Qed.
 
 Definition op_side2 (st : root) (o : op) : Prop :=
   match o with
